@@ -448,6 +448,28 @@ fn shaped(rng: &mut Rng, edits: usize, sfx_len: usize) -> Vec<String> {
             out.push(format!("{}{}", r, l));
         }
     }
+    // a well-formed token with up to two characters of garbage in front of it, behind it, or both (multi-byte characters
+    // shift every byte offset a parser may have computed from the shape it recognised)
+    {
+        let g = ['\u{e9}', '\u{20ac}', '\u{1f600}', 'A', 's', ' ', ':', '1'];
+        let mut junk: Vec<String> = vec![];
+        for a in g {
+            junk.push(a.to_string());
+            for b in g {
+                junk.push(format!("{}{}", a, b));
+            }
+        }
+        for r in reps {
+            for j in &junk {
+                out.push(format!("{}{}", j, r));
+                out.push(format!("{}{}", r, j));
+                out.push(format!("{}{}:0.5", j, r));
+            }
+            for _ in 0..40 {
+                out.push(format!("{}{}{}", rng.pick(&junk), r, rng.pick(&junk)));
+            }
+        }
+    }
     let pool: Vec<char> = ALPHA.iter().cloned().chain(['Q', 'd', 'c', '7', 'ß', '中', '\u{17f}', '\u{212a}']).collect();
     for _ in 0..edits {
         let b: Vec<char> = base[rng.usize(base.len())].chars().chain(sfx[rng.usize(sfx.len())].chars()).collect();
@@ -469,7 +491,7 @@ fn shaped(rng: &mut Rng, edits: usize, sfx_len: usize) -> Vec<String> {
     out
 }
 
-fn random_unicode(rng: &mut Rng, n: usize) -> Vec<String> {
+fn random_unicode(rng: &mut Rng, n: usize, huge: bool) -> Vec<String> {
     let cps: [u32; 12] = [0x41, 0x73, 0x32, 0x2b, 0xe9, 0x20ac, 0x1f600, 0x0, 0x7f, 0x80, 0xffff, 0x10ffff];
     let mut v = vec![];
     for _ in 0..n {
@@ -497,6 +519,16 @@ fn random_unicode(rng: &mut Rng, n: usize) -> Vec<String> {
     v.push(all.join(","));
     v.push(odd.join(","));
     v.push("AA,".repeat(2000));
+    // many pieces: list lengths around the 8-bit boundary, and beyond 2^16 / 12
+    for k in [254usize, 255, 256, 257, 5500] {
+        v.push(",".repeat(k));
+    }
+    v.push("AsKs:0.5,".repeat(300));
+    if huge {
+        for k in [65_534usize, 65_535, 65_536, 70_000] {
+            v.push(",".repeat(k));
+        }
+    }
     v
 }
 
@@ -508,7 +540,7 @@ pub fn record_c09(args: &Args, mut out: Out) -> usize {
         let m = s.chars().all(|c| ALPHA.contains(&c));
         inputs.push((s, m));
     }
-    for s in random_unicode(&mut rng, args.num("unicode", 2000) as usize) {
+    for s in random_unicode(&mut rng, args.num("unicode", 2000) as usize, args.num("huge", 0) == 1) {
         inputs.push((s, false));
     }
     // the repository's own test strings
@@ -516,6 +548,9 @@ pub fn record_c09(args: &Args, mut out: Out) -> usize {
         inputs.push((s.to_string(), false));
     }
     let threads = args.num("threads", 16) as usize;
+    // very long inputs each get a thread of their own (they would otherwise all land in the last chunk)
+    let (heavy, inputs): (Vec<(String, bool)>, Vec<(String, bool)>) = inputs.into_iter().partition(|(s, _)| s.len() > 3000);
+    let heavy_threads: Vec<_> = heavy.into_iter().map(|(s, m)| std::thread::spawn(move || str_event(&s, m))).collect();
     let inputs = std::sync::Arc::new(inputs);
     let chunk = (inputs.len() + threads - 1) / threads;
     let mut hs = vec![];
@@ -531,6 +566,9 @@ pub fn record_c09(args: &Args, mut out: Out) -> usize {
         for l in h.join().unwrap() {
             out.line(&l);
         }
+    }
+    for h in heavy_threads {
+        out.line(&h.join().unwrap());
     }
     out.finish()
 }
